@@ -786,7 +786,16 @@ fn async_rt() -> &'static tokio::runtime::Runtime {
     RT.get_or_init(|| tokio::runtime::Builder::new_multi_thread().worker_threads(1).max_blocking_threads(1).enable_all().build().expect("tokio runtime"))
 }
 
+/// Servers cannot be stopped once `serve(self)` runs, so every socket leg leaves a listener (and, for the
+/// blocking server, a parked accept thread) behind. Bound their number: past it the legs are skipped, not judged.
+static SERVERS_STARTED: AtomicU64 = AtomicU64::new(0);
+static REFUSED_DONE: AtomicU64 = AtomicU64::new(0);
+const MAX_SERVERS: u64 = 4000;
+
 fn start_server(router: Router, srv: u8, short_read_timeout: bool) -> Result<std::net::SocketAddr, &'static str> {
+    if SERVERS_STARTED.fetch_add(1, Ordering::SeqCst) >= MAX_SERVERS {
+        return Err("cap");
+    }
     let to = |bit: u8| if srv & bit != 0 { Some(std::time::Duration::from_secs(30)) } else { None };
     let rto = if short_read_timeout { Some(std::time::Duration::from_millis(60)) } else { to(2) };
     if srv & 8 == 0 {
@@ -876,7 +885,13 @@ fn tcp_roundtrip(router: Router, frames: &[Vec<u8>], srv: u8, io: u8, salt: u64)
         let _ = ws.flush();
     });
     if io & 32 != 0 {
-        let _ = writer.join();
+        // the peer reads nothing for a while: until everything is written, but for at most 300 ms – a client
+        // that NEVER reads while it keeps sending is rightly stuck once the buffers are full (both sides block),
+        // and that would be this harness's deadlock, not the server's
+        let t0 = std::time::Instant::now();
+        while !writer.is_finished() && t0.elapsed() < std::time::Duration::from_millis(300) {
+            std::thread::sleep(std::time::Duration::from_millis(5));
+        }
         std::thread::sleep(std::time::Duration::from_millis(40));
     }
     let mut out = Vec::new();
@@ -905,6 +920,9 @@ fn ws_roundtrip(router: Router, frames: &[Vec<u8>]) -> Result<Vec<Message>, &'st
     let frames = frames.to_vec();
     rt.block_on(async move {
         let work = async {
+            if SERVERS_STARTED.fetch_add(1, Ordering::SeqCst) >= MAX_SERVERS {
+                return Err("cap");
+            }
             let listener = repe::WebSocketServer::listen("127.0.0.1:0").await.map_err(|_| "bind")?;
             let addr = listener.local_addr().map_err(|_| "addr")?;
             tokio::spawn(async move {
@@ -1264,8 +1282,7 @@ fn exec_twin(out: &mut Out, line: &str, w: &[&str]) -> (String, bool) {
     // async server, with the request's id and query
     if (io & 128 != 0 || idx.parse::<u64>().map(|i| i % 8 == 1).unwrap_or(false)) && notify != 1 && !panics {
         let refused = version != 1 || qfmt != 1 || std::str::from_utf8(&query).map(|p| wrapped.get(p).is_none()).unwrap_or(true);
-        if refused && E2E_DONE.load(Ordering::SeqCst) < E2E_CAP.load(Ordering::SeqCst) {
-            E2E_DONE.fetch_add(1, Ordering::SeqCst);
+        if refused && REFUSED_DONE.fetch_add(1, Ordering::SeqCst) < 300 {
             let f = vec![req.to_vec()];
             let a = tcp_roundtrip(wrapped.clone(), &f, srv & !8, 0, 0);
             let b = tcp_roundtrip(wrapped.clone(), &f, srv | 8, 0, 0);
@@ -2616,7 +2633,7 @@ fn main() {
         None => generate(&args),
     };
     if args.thorough() {
-        E2E_CAP.store(6000, Ordering::SeqCst);
+        E2E_CAP.store(2100, Ordering::SeqCst);
         THOROUGH.store(true, Ordering::SeqCst);
     }
     let mut sc = Scen::new();
